@@ -380,6 +380,73 @@ def check_algebra(rng, out):
         raise V("composite-port-buffer-bit", config=cfg, buffer_dir=bdir, **bad[0])
 
 
+def check_split_buffers(rng, out):
+    """Several buffers on different slices of ONE simulation port, fed from a common source: every buffer drives
+    exactly its own bits of port.o / port.oe (the slices change in the same instant), and reads its own bits."""
+    from amaranth.hdl import Module, Signal, ClockDomain, Cat
+    from amaranth.lib import io
+    from amaranth.sim import Simulator
+    w = rng.randrange(2, 7)
+    inv = tuple(rng.random() < 0.5 for _ in range(w))
+    M = mask_of(inv)
+    ncut = rng.randrange(1, min(3, w - 1) + 1)
+    cuts = [0] + sorted(rng.sample(range(1, w), ncut)) + [w]
+    ff = rng.random() < 0.4
+    bdir = rng.choice(["o", "io", "io"])
+    port = io.SimulationPort("io", w, invert=inv, name="pad")
+    m = Module()
+    cd = ClockDomain("sync", reset_less=True)
+    m.domains.sync = cd
+    src, en = Signal(w, name="src"), Signal(name="en")
+    got_i = Signal(w, name="got_i")
+    for k, (lo, hi) in enumerate(zip(cuts, cuts[1:])):
+        buf = (io.FFBuffer if ff else io.Buffer)(bdir, port[lo:hi])
+        m.submodules[f"buf{k}"] = buf
+        m.d.comb += [buf.o.eq(src[lo:hi]), buf.oe.eq(en)]
+        if bdir == "io":
+            m.d.comb += got_i[lo:hi].eq(buf.i)
+    sim = Simulator(m)
+    cfg = {"kind": "buffers-on-slices-of-one-port", "width": w, "invert": list(inv), "cuts": cuts, "ffbuffer": ff, "buffer_dir": bdir}
+    out["hist"]["split-buffers:" + ("ff" if ff else "comb") + ":" + bdir] = out["hist"].get("split-buffers:" + ("ff" if ff else "comb") + ":" + bdir, 0) + 1
+    full = (1 << w) - 1
+    bad = []
+
+    async def tb(ctx):
+        prev = None
+        for step in range(24):
+            sv, ev_, pi = rng.getrandbits(w), rng.getrandbits(1), rng.getrandbits(w)
+            ctx.set(port.i, pi)
+            ctx.set(Cat(src, en), sv | (ev_ << w))       # every slice's source changes in the same instant
+            if ff:
+                ctx.set(cd.clk, 1)
+                po, poe = ctx.get(port.o), ctx.get(port.oe)
+                if (po, poe) != (sv ^ M, full if ev_ else 0):
+                    bad.append(dict(step=step, when="right after the clock edge", src=sv, en=ev_, port_o=po, port_oe=poe,
+                                    expected_o=sv ^ M, expected_oe=full if ev_ else 0))
+                    return
+                ctx.set(cd.clk, 0)
+                if bdir == "io":
+                    ctx.set(cd.clk, 1)
+                    ctx.set(cd.clk, 0)
+            po, poe = ctx.get(port.o), ctx.get(port.oe)
+            out["evaluations"] += 1
+            if (po, poe) != (sv ^ M, full if ev_ else 0):
+                bad.append(dict(step=step, src=sv, en=ev_, port_o=po, port_oe=poe, expected_o=sv ^ M, expected_oe=full if ev_ else 0))
+                return
+            if bdir == "io":
+                gi = ctx.get(got_i)
+                exp = sv if ev_ else (pi ^ M)
+                if gi != exp:
+                    bad.append(dict(step=step, src=sv, en=ev_, pad_i=pi, fabric_i=gi, expected_i=exp))
+                    return
+    sim.add_testbench(tb)
+    sim.run()
+    if bad:
+        out["violations"].append({"mechanism": "buffers-on-slices-of-one-port:" + ("port-output" if "port_o" in bad[0] else "fabric-input"),
+                                  "detail": dict(config=cfg, **bad[0])})
+    out["fps"].add(fp(cfg))
+
+
 def shards(tier, seed):
     specs = [{"kind": "buffer-enum", "width": w} for w in range(0, 4)]
     n = 48 if tier == "quick" else 2400
@@ -427,6 +494,7 @@ def run_shard(spec):
             guard(out, lambda: check_ffbuffer(w, inv, pdir, bdir, idn, odn, rng, out))
             for _ in range(4):
                 guard(out, lambda: check_algebra(rng, out))
+            guard(out, lambda: check_split_buffers(rng, out))
         if spec["shard"] == 0:
             out["samples"].append({"config": {"kind": "FFBuffer", "width": 3, "invert": [False, True, True]},
                                    "model": "pad.o = o_ff ^ 0b110, pad.oe = oe_ff x3, i = i_ff; one register per direction"})
